@@ -22,7 +22,7 @@ open Mqtt.Spec.Broker (Accepts)
 /-- **one event** -/
 theorem step_refines (b : B) (s : Spec.Broker.S) (e : Ev) (h : R b s) (hok : okEv b e = true) :
     R (step b e).1 (Spec.Broker.step s e).1 ∧ Accepts (Spec.Broker.step s e).2 (step b e).2 := by
-  rw [spec_step_eq s e h.overlap]
+  rw [spec_step_eq s e]
   cases e with
   | first c f a => exact step_first h c f a hok
   | close c => exact step_close h c
@@ -124,7 +124,11 @@ def tW : Bytes := [119]              -- "w"
 QoS 2 exchange from B on "a/b"; A's socket closes (will to B); A reconnects
 (session present, subscriptions back), B publishes again; the in-process API
 subscribes to "a/#" and publishes; A disconnects; a connection whose first
-packet is a PUBLISH is refused; an anonymous client (empty identifier) comes and goes. -/
+packet is a PUBLISH is refused;
+"B" connects again (CleanSession=0, will on "a/b") while its first connection is still live: that
+one is closed (MQTT-3.1.4-2); "B" subscribes, connects a third time: the second connection is
+closed, its will published, the session resumed (SessionPresent=1) and the subscription still delivers;
+an anonymous client (empty identifier) comes and goes. -/
 def history : List Ev :=
   [.first 1 (.connect (conn [65] false (some ⟨tW, [1], 1, false⟩))) true,
    .packet 1 (.subscribe 1 [(tAplus, 1), (tW, 2)]),
@@ -140,6 +144,10 @@ def history : List Ev :=
    .srvPub { qos := 1, topic := tAB, payload := [10] },
    .packet 3 .disconnect,
    .first 4 (.other 3) true,
+   .first 6 (.connect (conn [66] false (some ⟨tAB, [2], 0, false⟩))) true,
+   .packet 6 (.subscribe 3 [(tAB, 1)]),
+   .first 7 (.connect (conn [66] false)) true,
+   .srvPub { qos := 1, topic := tAB, payload := [11] },
    .first 5 (.connect (conn [] true)) true,
    .packet 5 (.subscribe 2 [(tW, 0)]),
    .close 5]
@@ -168,6 +176,11 @@ example : (run {} Ex.history).2 =
       .call 1000 { qos := 1, topic := Ex.tAB, pktid := 2, payload := [10] }],
      [.closed 3],
      [.closed 4],
+     [.closed 2, .send 6 (.connack false 0)],
+     [.send 6 (.suback 3 [1]), .send 6 (.publish { qos := 1, retain := true, topic := Ex.tAB, pktid := 7, payload := [7] })],
+     [.closed 6, .call 1000 { qos := 0, topic := Ex.tAB, payload := [2] }, .send 7 (.connack true 0)],
+     [.call 1000 { qos := 1, topic := Ex.tAB, payload := [11] },
+      .send 7 (.publish { qos := 1, topic := Ex.tAB, pktid := 3, payload := [11] })],
      [.send 5 (.connack false 0)],
      [.send 5 (.suback 2 [0])],
      [.closed 5]] := by decide
